@@ -383,6 +383,26 @@ fn scan_checks(h: &History, rep: &mut Report, rng: &mut Rng) {
                 }
             }
         }
+        // a key the set does not have (the name of a key of another set, and a name no set has): nothing can be found
+        let mut absent: Vec<String> = m.sets.values().flat_map(|s| s.keys.values().map(|k| k.id.clone())).filter(|k| !set.keys.values().any(|x| &x.id == k)).take(2).collect();
+        absent.push("no-such-key-anywhere".to_string());
+        for k in &absent {
+            for op in ops.iter().step_by(9) {
+                rep.eval();
+                let routes: Vec<(&str, Result<usize, Panic>)> = vec![
+                    ("dataset.find_data", guard(|| ds.find_data(k.as_str(), op.clone()).count())),
+                    ("store.find_data", guard(|| store.find_data(set.id.as_str(), k.as_str(), op.clone()).count())),
+                    ("dataset.test_data", guard(|| ds.test_data(k.as_str(), op.clone()) as usize)),
+                ];
+                for (name, r) in routes {
+                    match r {
+                        Err(p) => rep.violation(format!("C10/{}/absent-key/panic/{}", name, p.class()), json!({"set": set.id, "key": k, "operator": format!("{:?}", op), "panic": p.msg, "history": h.replay_json()})),
+                        Ok(0) => rep.distinct(&format!("absent-key/{}/{}", name, opname(op))),
+                        Ok(n) => rep.violation(format!("C10/{}/absent-key-finds-data", name), json!({"set": set.id, "key": k, "operator": format!("{:?}", op), "found": n, "history": h.replay_json()})),
+                    }
+                }
+            }
+        }
         // the same searches as filters over the data of the WHOLE store (several datasets: handles of keys and data repeat per set)
         for k in set.keys.values().take(3) {
             let Some(key) = ds.key(DataKeyHandle::new(k.handle)) else { continue };
